@@ -200,6 +200,29 @@ static FileSpec make_spec(const FamEntry &fe, const std::vector<std::vector<DK>>
         m.feats.push_back({fd, LinkType::Indexed});
         s.tags.push_back(m);
     }
+    // ---- mixed arrays (enumerated with the second generation): a descriptor WITHOUT unit (set) in front of one WITH unit
+    //      (sampled / range); each is the only reference of a dedicated tag and multi-tag whose second unit belongs to the
+    //      family of that descriptor with another prefix and whose first unit has nothing to be compared with
+    for (int b = 0; b < fe.nblocks; b++) {
+        int x = fe.variant + b;
+        ArrSpec a; a.name = "mx" + std::to_string(b); a.block = b; a.role = 'X'; a.calib = false; a.gen = 1; a.unit = "mV";
+        a.dims.push_back({SET, 3, "", true});
+        a.dims.push_back({(x % 2) ? RANGE : SAMP, 4, std::string(PRE[x % 3]) + FAM[1], false});
+        int mx = (int)s.arrays.size(); s.arrays.push_back(a);
+        std::string sfx = "mx" + std::to_string(b);
+        int pos = (int)s.arrays.size(); s.arrays.push_back(small_set_array("pos" + sfx, b, 'p', {3, 2}));
+        int ext = (int)s.arrays.size(); s.arrays.push_back(small_set_array("ext" + sfx, b, 'e', {3, 2}));
+        s.arrays[pos].gen = s.arrays[ext].gen = 1;
+        int fd = -1;
+        for (int k = 0; k < (int)s.arrays.size() && fd < 0; k++) if (s.arrays[k].block == b && s.arrays[k].role == 'f') fd = k;
+        std::vector<std::string> units = {std::string("m") + FAM[0], std::string(PRE[(x + 1) % 3]) + FAM[1]};
+        TagSpec t; t.name = "tg" + sfx; t.block = b; t.multi = false; t.refs = {mx}; t.units = units; t.pos = t.ext = -1; t.gen = 1;
+        t.feats.push_back({fd, LinkType::Untagged});
+        s.tags.push_back(t);
+        TagSpec m; m.name = "mt" + sfx; m.block = b; m.multi = true; m.refs = {mx}; m.units = units; m.pos = pos; m.ext = ext; m.gen = 1;
+        m.feats.push_back({fd, LinkType::Indexed});
+        s.tags.push_back(m);
+    }
     s.props.push_back({{"meta"}, "p_gain"});
     s.props.push_back({{"meta"}, "p_times"});
     s.props.push_back({{"meta", "sub"}, "p_rate"});
@@ -218,6 +241,7 @@ static FileSpec make_spec(const FamEntry &fe, const std::vector<std::vector<DK>>
 static std::vector<double> alias_data(const ArrSpec &a) {
     std::vector<double> v;
     for (size_t i = 0; i < a.dims[0].len; i++) v.push_back(a.i32 ? -3.0 + (double)(2 * i * i + i) : -1.5 + 1.25 * (double)i * (double)(i + 1));
+    if (v.size() >= 4 && a.block == 0) v[2] = v[1];   // two coincident events (the first two and the last two values stay distinct)
     return v;
 }
 
@@ -244,6 +268,15 @@ static void append_dim(Block &blk, DataArray &da, const ArrSpec &a, size_t p) {
     case RANGE: {
         std::vector<double> ticks;
         for (size_t i = 0; i < d.len; i++) ticks.push_back(-1.0 + 0.75 * (double)i * (double)(i + 1));
+        // every other range descriptor with four or more ticks has two EQUAL adjacent ticks in the middle (the first two and
+        // the last two stay distinct: the unsorted-ticks breaches swap those).  "Sorted" is what the library's own setter
+        // accepts as sorted: if it refuses the repeated value the strictly ascending ticks are used.
+        if (d.len >= 4 && (a.name.size() + p) % 2 == 0) {
+            std::vector<double> rep = ticks; rep[2] = rep[1];
+            bool ok = vf::guarded([&] { da.appendRangeDimension(rep, "axis" + std::to_string(p), d.unit); }).empty();
+            if (ok) { vf::count("range_descriptors_with_equal_adjacent_ticks"); break; }
+            if (da.dimensionCount() > p) da.deleteDimensions();   // never expected: the setter either appends or refuses
+        }
         da.appendRangeDimension(ticks, "axis" + std::to_string(p), d.unit);
         break; }
     case SET: {
@@ -435,13 +468,19 @@ static std::vector<Site> make_sites(const FileSpec &s, int *n_first = nullptr) {
         const TagSpec &T = s.tags[t];
         if (T.gen != gen) continue;
         bool only_alias = T.refs.size() == 1 && s.arrays[T.refs[0]].alias;
-        for (int p = 0; p < (int)T.units.size(); p++)
+        for (int p = 0; p < (int)T.units.size(); p++) {
+            // a tag unit is compared with the unit of descriptor p of every reference: where no reference has a unit there, any
+            // valid unit conforms
+            bool compared = false;
+            for (int r : T.refs) if (p < (int)s.arrays[r].dims.size() && !s.arrays[r].dims[p].unit.empty()) compared = true;
+            if (!compared) continue;
             for (int v = 0; v < 2; v++) {
                 std::string nu = v == 0 ? "K" : T.units[p] + "^2";
                 add(B_TAGUNIT, 0, false, -1, p, t, v, std::string(T.multi ? "multi-tag" : "tag") + (only_alias ? " on an alias array:" : "") + " unit not convertible (" + (v ? "other power" : "other base unit") + ")",
                     "unit " + std::to_string(p + 1) + "/" + std::to_string(T.units.size()) + " of " + tag_ctx(s, t) + " set to " + nu,
                     {{'T', t, 0}}, {"T" + std::to_string(t) + ".u" + std::to_string(p)}, {}, 1);
             }
+        }
     }
     for (int a = 0; a < na; a++) {
         if (s.arrays[a].gen != gen) continue;
@@ -457,6 +496,7 @@ static std::vector<Site> make_sites(const FileSpec &s, int *n_first = nullptr) {
             continue;
         }
         for (int p = 0; p < (int)s.arrays[a].dims.size(); p++)
+            if (!s.arrays[a].dims[p].unit.empty())
             add(B_REFUNIT, 0, false, a, p, -1, 0, "referenced dimension's unit changed to one the tag units cannot be converted to",
                 "unit of " + dim_ctx(s, a, p) + " set to cd (referenced by " + std::to_string(tg.size()) + " tags/multi-tags)",
                 tg, {dkey(a, p) + "unit"}, {}, 1);
